@@ -431,6 +431,17 @@ pub open spec fn clip_spec<X: Sample>(x: X, t: X::Signed) -> X {
 //@end
 //@endimpl
 
+// Clone: a clone taken in the middle of a frame keeps the frame in progress (R-inherent; the source's and the channel iterator's
+// own Clone impls are contract-only stand-ins: a clone is equal to the original)
+pub trait CloneEq: Sized { fn clone_eq_(&self) -> (r: Self) ensures r == *self; }
+impl<T> CloneEq for T { #[verifier::external_body] fn clone_eq_(&self) -> (r: Self) { unimplemented!() } }
+//@impl file=dasp_signal/src/lib.rs header="impl<S> Clone for IntoInterleavedSamples<S>" as="impl<S> IntoInterleavedSamples<S>"
+//@fn file=dasp_signal/src/lib.rs in="impl:<S> Clone for IntoInterleavedSamples<S>" name=clone ret=r label=IntoInterleavedSamples::clone vis=pub "rules=R-subst:fn clone=>fn clone_,R-subst:.clone()=>.clone_eq_()"
+//@spec
+        ensures r.signal == self.signal, r.current_frame == self.current_frame,
+//@end
+//@endimpl
+
 //@impl file=dasp_signal/src/lib.rs header="impl<S> Iterator for IntoInterleavedSamplesIterator<S>" as="impl<S> IntoInterleavedSamplesIterator<S>"
 //@fn file=dasp_signal/src/lib.rs in="impl:<S> Iterator for IntoInterleavedSamplesIterator<S>" name=next ret=r label=IntoInterleavedSamplesIterator::next vis=pub "rules=R-subst:Self::Item=><S::Frame as Frame>::Sample"
 //@spec
